@@ -81,6 +81,10 @@ func (r *Run) newSigner(k *KeyPair, viaDirectory bool) cose.Signer {
 		// then takes its ASN.1 path
 		r.Lib(func() { s, err = cose.NewSigner(cose.Algorithm(k.Alg), &HSM{Key: priv}) })
 		r.Probe("signer-behind-crypto.Signer")
+	} else if !isEC && r.T.Bool(1, 4, "signer.opaque.other") {
+		// RSA and Ed25519 keys can live in a device too
+		r.Lib(func() { s, err = cose.NewSigner(cose.Algorithm(k.Alg), &HSM{Key: k.Priv}) })
+		r.Probe("signer-behind-crypto.Signer(rsa/ed25519)")
 	} else {
 		r.Lib(func() { s, err = libSigner(k) })
 	}
